@@ -1,12 +1,14 @@
 import GeomV.C02.Model
 import GeomV.C02.Spec
+import GeomV.C02.Gen
 /-!
 Driver for C02.  `geomv_c02 judge` reads lines carrying the implementation's answers:
 
   grid <tag> <lo> <hi> <z> <polygonal> => <digits>   every point (i/2, j/2), lo ≤ i, j ≤ hi (row-major,
                                                      y outer), status digit 0/1/2 per point
   sgrid <tag> <lo> <hi> <ex> <polygonal> => <digits> the same grid scaled by 2^ex (polygon already scaled)
-  pt <tag> <xhex> <yhex> <polygonal>   => <digit>    one float point (exact dyadic value is judged)
+  pt <tag> <xhex> <yhex> <polygonal>   => <digit>    one float point (exact dyadic value is judged); tags `nf-…`: NaN / ±Inf /
+                                                     -0.0 coordinates, judged against the XF rendering of the source (DIFF only)
   hist <flav> <lo> <hi> <P1> | <P2>    => <d1> <d2> <d3>  one polygon object: query as P1, changed in place to P2, back to P1
   recv <tag> <geom> | <polygonal>      => <digit>    MultiPoint/LineString/MultiLineString/Polygon.Within
   cc <tag> <rounds> <sub> <lo> <hi> <P1> | <lo> <hi> <P2> | …  => <a1> <a2> …
@@ -115,6 +117,42 @@ def judgePt (tag : String) (p : Pt Rat) (pg : Polygonal) (rhs : Tok) : String :=
     if d.toList ≠ [sp] then s!"SPEC {cls} impl={d} spec={sp}"
     else if d.toList ≠ [md] then s!"DIFF {cls} impl={d} model={md}"
     else s!"OK {cls}"
+  | _ => s!"SPEC {cls} implementation-{" ".intercalate rhs}"
+
+/-- a float64 bit pattern as an `XF` (NaN, ±Inf, -0 kept) -/
+def xfOfBits (u : UInt64) : XF :=
+  let n := u.toNat
+  let neg := n / 2^63 == 1
+  if (n / 2^52) % 2048 = 2047 then (if n % 2^52 = 0 then (if neg then .ninf else .pinf) else .nan)
+  else if n % 2^63 = 0 then (if neg then .nzero else .fin 0)
+  else match bitsToRat u with
+    | some q => .fin q
+    | none => .nan
+
+def ptX (p : Pt UInt64) : PX := ⟨xfOfBits p.x, xfOfBits p.y⟩
+
+def polygonalXOf : BGeom → Option PolygonalX
+  | .polygon rs => some (.polygon (rs.map (·.map ptX)))
+  | .multiPolygon ps => some (.multiPolygon (ps.map (·.map (·.map ptX))))
+  | .bounds a b => some (.bounds (ptX a) (ptX b))
+  | _ => none
+
+def shapeX : PolygonalX → String
+  | .polygon p => s!"pg{min p.length 4}"
+  | .multiPolygon ps => s!"mpg{min ps.length 4}"
+  | .bounds _ _ => "bounds"
+
+/-- non-finite / signed-zero lines: the implementation against `Point.Within` rendered over `XF` from the source
+(correspondence only: such coordinates are outside the property's quantifier) -/
+def judgeNF (tag : String) (p : PX) (pg : PolygonalX) (rhs : Tok) : String :=
+  let cls := s!"pt-{tag}-{shapeX pg}"
+  match stability cls rhs with
+  | some v => v
+  | none =>
+  match rhs with
+  | [d] =>
+    let md := modelDigit (GenXL.pointInPolygonal GenX.pointOnSegment GenX.rayIntersectsSegment p pg)
+    if d.toList ≠ [md] then s!"DIFF {cls} impl={d} xf-model={md}" else s!"OK {cls}"
   | _ => s!"SPEC {cls} implementation-{" ".intercalate rhs}"
 
 def verts : BGeom → Option (String × List (Pt UInt64))
@@ -246,6 +284,11 @@ def judgeLine (line : String) : String :=
   | "pt" :: tag :: x :: y :: gt =>
     match parseU64 x, parseU64 y, Proto.pGeom 4 gt with
     | some x, some y, some (g, _) =>
+      if tag.startsWith "nf-" then
+        match polygonalXOf g with
+        | some pg => judgeNF tag (ptX ⟨x, y⟩) pg rhs
+        | none => "BAD parse"
+      else
       match ptRat ⟨x, y⟩, polygonalOf g with
       | some p, some pg => judgePt tag p pg rhs
       | _, _ => "OK skipped-nonfinite"
